@@ -261,34 +261,50 @@ def _r073(ctx: Ctx) -> None:
             v = it.call_closure(Closure(fn, mi, ci), [Sym('code'), Sym('rate')], {'rng': rng}, fn, self_obj=o)
             return v, list(rec)
         outs = guard('R07.3', mi, fn)(lambda: it.explore(thunk))
-        ctx.need(len(outs) == 1 and outs[0].kind == 'return', 'R07.3', site, f'generate: paths {outs!r}')
-        v, calls = outs[0].value
-        ok, detail = True, ''
-        if len(calls) != 2:
-            ok, detail = False, f'{len(calls)} draws for 2 qubits'
-        for opts, probs, r in calls:
-            if not (isinstance(opts, (tuple, list)) and isinstance(probs, (tuple, list)) and len(opts) == len(probs) == 4):
-                ok, detail = False, f'options {opts!r} / probabilities {probs!r}'
-                break
-            for o_, p_ in zip(opts, probs):
-                if not (isinstance(p_, Event) and p_.s == {o_}):
-                    ok, detail = False, f"option '{o_}' is drawn with probability {p_!r}"
-            if set(opts) != set(PAULIS):
-                ok, detail = False, f'options are {opts!r}'
-            if given and r is not rng:
-                ok, detail = False, f'draw uses {r!r} instead of the generator passed by the caller'
-            if not given and not isinstance(r, _Rng):
-                ok, detail = False, f'without a generator the draw uses {r!r}'
-        if ok and [(repr(a), repr(b)) for a, b in dist_args] != [(repr(Sym('code')), repr(Sym('rate')))]:
-            ok, detail = False, (f'probability_distribution is asked for {dist_args!r}; generate was called with '
-                                 f'(code, error_rate)')
+        ctx.need(outs and all(o.kind == 'return' for o in outs), 'R07.3', site, f'generate: paths {outs!r}')
+        ok, detail, okv, v = True, '', True, None
+        calls = []
+        # every path (e.g. one per kind of model) is judged on its own
+        for o in outs:
+            v_p, calls_p = o.value
+            ok_p, detail_p = _judge_draws(calls_p, rng, given, dist_args)
+            okv_p = (isinstance(v_p, Tagged) and v_p.tag == 'pauli_to_bsf' and isinstance(v_p.args[0], Tagged)
+                     and v_p.args[0].tag == 'joined'
+                     and list(v_p.args[0].args[0]) == [Tagged('drawn', 1), Tagged('drawn', 2)])
+            if ok and not ok_p:
+                ok, detail = False, detail_p
+            if okv and not okv_p:
+                okv, v = False, v_p
+            calls = calls or calls_p
+            v = v if v is not None else v_p
         ctx.ob('R07.3', site, f'generate: letter P drawn with probability of event {{P}}; rng threading '
                               f'({"rng supplied" if given else "rng=None"})', ok, detail,
                key=f'PauliErrorModel.generate|draws[{given}]', facts=[repr(c) for c in calls])
-        okv = (isinstance(v, Tagged) and v.tag == 'pauli_to_bsf' and isinstance(v.args[0], Tagged)
-               and v.args[0].tag == 'joined' and list(v.args[0].args[0]) == [Tagged('drawn', 1), Tagged('drawn', 2)])
         ctx.ob('R07.3', site, f'generate returns pauli_to_bsf of the drawn letters ({"rng" if given else "no rng"})', okv,
                f'returns {v!r}', key=f'PauliErrorModel.generate|bsf[{given}]', facts=repr(v))
+
+
+def _judge_draws(calls, rng, given, dist_args):
+    ok, detail = True, ''
+    if len(calls) != 2:
+        ok, detail = False, f'{len(calls)} draws for 2 qubits'
+    for opts, probs, r in calls:
+        if not (isinstance(opts, (tuple, list)) and isinstance(probs, (tuple, list)) and len(opts) == len(probs) == 4):
+            ok, detail = False, f'options {opts!r} / probabilities {probs!r}'
+            break
+        for o_, p_ in zip(opts, probs):
+            if not (isinstance(p_, Event) and p_.s == {o_}):
+                ok, detail = False, f"option '{o_}' is drawn with probability {p_!r}"
+        if set(opts) != set(PAULIS):
+            ok, detail = False, f'options are {opts!r}'
+        # the SOURCE of the uniform variate does not change the distribution: the caller's generator, a fresh one, or
+        # fast_choice's own fallback (rng=None).  Which of them it must be is reproducibility - C11 R11.3 - not this property.
+        if not (r is None or r is rng or isinstance(r, _Rng)):
+            raise AnalysisError('R07.3', 'PauliErrorModel.generate', f'source of the uniform variate not tracked: {r!r}')
+    if ok and any((repr(a), repr(b)) != (repr(Sym('code')), repr(Sym('rate'))) for a, b in dist_args) or not dist_args:
+        ok, detail = False, (f'probability_distribution is asked for {dist_args!r}; generate was called with '
+                             f'(code, error_rate)')
+    return ok, detail
 
 
 # ------------------------------------------------------------------- R07.4
@@ -364,11 +380,9 @@ def _r074(ctx: Ctx) -> None:
                 if probs[opts.index(got)] == 0:
                     bad = f'probs={[str(p) for p in probs]}, variate {x}: returns {got!r} which has probability 0'
                     break
-                if with_rng and srcs != ['rng']:
-                    bad = f'with a generator supplied the variate comes from {srcs}'
-                    break
-                if not with_rng and srcs != ['global']:
-                    bad = f'without a generator the variate comes from {srcs}'
+                # exactly one uniform variate per draw; WHICH generator it comes from is reproducibility (C11 R11.3)
+                if len(srcs) != 1:
+                    bad = f'one draw consumes {len(srcs)} uniform variates ({srcs})'
                     break
             if bad:
                 break
